@@ -98,6 +98,37 @@ CHECKS = {
         "after rounding to the nearest second.",
         "DESIGN.md section 5 C17",
     ),
+    "C18": (
+        "property-based testing (Hypothesis) of string laws against host-"
+        "string oracles and mutual consistency; exhaustive small pairs; "
+        "backtracking matcher for s/sprintf output",
+        "Generated adversarial string pairs (separators, regex "
+        "metacharacters, quotes, backslash, control characters, braces) and "
+        "all pairs of strings <= 2 (3) over 4 critical symbols are pushed "
+        "through 30 laws (split/join inverse, replace, reverse, case, trim, "
+        "contains/find/in/starts/ends consistency, chr/ord, lines/words); "
+        "s/sprintf outputs are matched against the literal text and per-"
+        "placeholder format predicates. Sampling, exhaustive on the small "
+        "set.",
+        "Trusted: Python string functions as definitions; the format "
+        "predicates (width, side, precision, hex) as read from the "
+        "documentation of s.",
+        "DESIGN.md section 5 C18",
+    ),
+    "C19": (
+        "property-based testing (Hypothesis) against host-language "
+        "definitions and permutation metamorphic relations; exhaustive "
+        "boundary words x shift counts for the bitwise functions",
+        "Generated lists/sets with duplicates and 1 vs 1.0 are compared with "
+        "Python set/list definitions for 30 collection functions; "
+        "mean/median*/min/max on every sampled permutation (all for length "
+        "<= 4/5); pow/gcd/lcm/abs/sign/sum/prod on ints up to 2^80 against "
+        "Python integers; all 13 boundary words x counts 0..40 x word pairs "
+        "against 32-bit arithmetic (exhaustive).",
+        "Trusted: the Python reference definitions; gcd/lcm up to sign; both "
+        "conventions for shift counts >= 32; tolerance 1e-9 on decimals.",
+        "DESIGN.md section 5 C19",
+    ),
 }
 
 NOT_APPLICABLE = {}
